@@ -320,3 +320,8 @@ B("C01", SV, "    if len(np.unique(ncomp_per_branch)) > 1:\n        # The reshap
 # same_expr: hoisted temporaries in the constructors are not a change
 P("C12", CELL, '        self.nodes["global_comp_index"] = np.arange(self.cumsum_ncomp[-1])', '        n_total = self.cumsum_ncomp[-1]\n        self.nodes["global_comp_index"] = np.arange(n_total)')
 B("C12", CELL, '        self.nodes["global_comp_index"] = np.arange(self.cumsum_ncomp[-1])', '        self.nodes["global_comp_index"] = np.arange(1, self.cumsum_ncomp[-1] + 1)', "R-C12-concat")
+# F5 (repaired): synaptic states are stored per type; recordings / clamps carry global edge rows
+B("C08", BASE, "                    inds = jnp.asarray(self._edge_inds_within_type())[inds]", "                    inds = inds", "R-C08-space")
+B("C08", IG, "        edge_inds_within_type[ind] if state in module.synapse_state_names else ind", "        ind", "R-C08-space")
+B("C08", BASE, "                inds, self._edges_in_view if is_edge_state else self._nodes_in_view\n            )", "                inds, self._nodes_in_view\n            )", "R-C08-space")
+B("C08", BASE, '                ptr_recs["rec_index"].isin(self._edges_in_view),\n', '                ptr_recs["rec_index"].isin(self._comps_in_view),\n', "R-C08-space")
